@@ -125,7 +125,7 @@ ControlResp  == {"control/PingPong", "control/Status", "control/ListSchemes", "c
                  "control/StartCheckChain", "control/BackupDatabase", "control/RemoteStatus"}
 DkgCtlResp   == {"dkgcontrol/Command", "dkgcontrol/DKGStatus"}
 HttpResp     == {"http/chains", "http/info", "http/public.latest", "http/public.round", "http/health"}
-LogKinds     == {"log/line", "stdout/line"}
+LogKinds     == {"log/line", "stdout/line", "trace/span"}   \* trace/span: a span exported to the tracing backend (name, attributes, recorded errors)
 
 Responses == ProtocolResp \cup PublicResp \cup DkgPubResp \cup MetricsResp \cup ControlResp \cup DkgCtlResp \cup HttpResp
 
@@ -164,7 +164,7 @@ Content(n, key, e) ==
     \* public facts about the node (actions_signing.go verifyMessage, broadcast.go BroadcastDKG, beacon/node.go
     \* ProcessPartialBeacon, drand_daemon_helper.go readBeaconID, state_machine.go Err*): never the key pair
     [] key \in ErrReplies -> Parts \cup Beacons(e) \cup {PktSig(p) : p \in Peers}
-    [] key \in {"log/line", "stdout/line"} -> Parts \cup Dist(e) \cup Beacons(e) \cup {PktSig(n)} \* addresses, public keys, (short) signatures, hashes, paths
+    [] key \in {"log/line", "stdout/line", "trace/span"} -> Parts \cup Dist(e) \cup Beacons(e) \cup {PktSig(n)} \* addresses, public keys, (short) signatures, hashes, paths
     [] OTHER -> {}     \* status flags, ids, empty acknowledgements, progress counters, metrics text, chain hashes, health
 
 -----------------------------------------------------------------------------
@@ -236,7 +236,7 @@ ProgBackup(n, e) == SecureSave("backup", FileContent(n, "backup", e))           
 NoEmission == [key |-> "none", from |-> 0, atoms |-> {}]
 Emission(n, key, e) == [key |-> key, from |-> n, atoms |-> Content(n, key, e)]
 
-Init == /\ node = [n \in Nodes |-> [keyed |-> FALSE, up |-> FALSE, epoch |-> 0, dkg |-> "idle"]]
+Init == /\ node = [n \in Nodes |-> [keyed |-> FALSE, up |-> FALSE, epoch |-> 0, dkg |-> "idle", dmg |-> "none"]]
         /\ fs = [n \in Nodes |-> [k \in FileKinds |-> NoFile]]
         /\ io = [n \in Nodes |-> <<>>]
         /\ umask \in [Nodes -> Umasks]
@@ -262,7 +262,7 @@ GenerateKey(n) == /\ ~node[n].keyed /\ Idle(n)
                   /\ last' = Emission(n, "stdout/line", 0)        \* "Saved the key : <addr> at <path>"
                   /\ UNCHANGED <<fs, umask>>
 
-StartDaemon(n) == /\ node[n].keyed /\ ~node[n].up /\ Idle(n)
+StartDaemon(n) == /\ node[n].keyed /\ ~node[n].up /\ Idle(n) /\ node[n].dmg = "none"
                   /\ node' = [node EXCEPT ![n].up = TRUE]
                   /\ Queue(n, ProgStartDaemon(n, node[n].epoch))
                   /\ last' = Emission(n, "log/line", node[n].epoch)
@@ -275,7 +275,7 @@ StopDaemon(n) == /\ node[n].up /\ Idle(n) /\ node[n].dkg = "idle"
 
 (* --- DKG ceremony for epoch node[n].epoch + 1 --- *)
 (* as leader (Command) or re-gossip of a received proposal (Packet) *)
-Propose(n) == /\ node[n].up /\ Idle(n) /\ node[n].dkg = "idle" /\ node[n].epoch < MaxEpoch
+Propose(n) == /\ node[n].up /\ Idle(n) /\ node[n].dkg = "idle" /\ node[n].epoch < MaxEpoch /\ node[n].dmg = "none"
               /\ node' = [node EXCEPT ![n].dkg = "proposed"]
               /\ Queue(n, ProgPropose(n, node[n].epoch))
               /\ last' = Emission(n, "dkg.gossip/Proposal", node[n].epoch)
@@ -302,7 +302,7 @@ Broadcast(n, d, key) == /\ node[n].up /\ Idle(n) /\ node[n].dkg = "executing"
                         /\ last' = [key |-> key, from |-> n, atoms |-> Content(d, key, node[n].epoch)]
                         /\ UNCHANGED <<node, fs, io, umask>>
 
-Complete(n) == /\ node[n].up /\ node[n].dkg = "executing" /\ Idle(n)
+Complete(n) == /\ node[n].up /\ node[n].dkg = "executing" /\ Idle(n) /\ node[n].dmg = "none"
                /\ node' = [node EXCEPT ![n].dkg = "idle", ![n].epoch = @ + 1]
                /\ Queue(n, ProgComplete(n, node[n].epoch + 1))
                /\ last' = Emission(n, "stdout/line", node[n].epoch + 1)     \* "crypto store: saving private share in <path>"
@@ -337,6 +337,34 @@ Backup(n) == /\ node[n].up /\ node[n].epoch > 0 /\ Idle(n)
              /\ last' = Emission(n, "control/BackupDatabase", node[n].epoch)
              /\ UNCHANGED <<node, fs, umask>>
 
+(* --- a DAMAGED private file (fault family of the environment) ---
+   An operator edits a key / share / group file by hand (v1 -> v2 migration, address change) and leaves it
+   unparsable or ill-typed while it still holds the secret.  DamageForms places the fault relative to the
+   secret's line; the design model only remembers WHICH file is damaged, the forms are the harness' obligation.
+   Every loader of the file (key.Load <- LoadKeyPair / LoadShare / LoadGroup <- daemon start, control LoadBeacon,
+   control PublicKey, self-sign migration, CLI show) then fails, and the failure is returned to the caller, logged,
+   printed and recorded on the tracing span.  What the error may quote is a projection of the decoder's error object. *)
+DamageFiles == {"key.private", "share", "group"}
+DamageForms == {"syntax-before", "syntax-on", "syntax-after-1", "syntax-after-2", "truncated-after", "duplicated-key",
+                "wrong-type-after", "wrong-type-before", "empty"}
+ParseErrObj(n, k, e) == [Path |-> {}, Message |-> {}, Position |-> {}, LastKey |-> {}, Usage |-> {},
+                         Input |-> FileContent(n, k, e)]             \* toml.ParseError keeps the whole document
+LoadErrFields == {"Message", "Position", "LastKey"}                   \* key/store.go Load: `return err` -> ParseError.Error()
+LoadErrEmitters == {"control/LoadBeacon.err", "control/PublicKey.err", "log/line", "stdout/line", "trace/span"}
+
+Damage(n, k) == /\ node[n].keyed /\ Idle(n) /\ node[n].dmg = "none" /\ node[n].dkg = "idle"
+                /\ k \in DamageFiles /\ fs[n][k].ex /\ fs[n][k].atoms # {}
+                /\ node' = [node EXCEPT ![n].dmg = k]
+                /\ UNCHANGED <<fs, io, umask, last>>
+Repair(n) == /\ node[n].dmg # "none"
+             /\ node' = [node EXCEPT ![n].dmg = "none"]
+             /\ UNCHANGED <<fs, io, umask, last>>
+LoadDamaged(n, key) == /\ node[n].dmg # "none" /\ Idle(n) /\ key \in LoadErrEmitters
+                       /\ (key = "control/PublicKey.err" => node[n].up)
+                       /\ last' = [key |-> key, from |-> n,
+                                   atoms |-> Proj(ParseErrObj(n, node[n].dmg, node[n].epoch), LoadErrFields)]
+                       /\ UNCHANGED <<node, fs, io, umask>>
+
 Log(n) == /\ node[n].keyed /\ Idle(n)
           /\ last' = Emission(n, "log/line", node[n].epoch)
           /\ UNCHANGED <<node, fs, io, umask>>
@@ -352,6 +380,9 @@ Next == \E n \in Nodes :
           \/ \E key \in OutKinds : Send(n, key)
           \/ \E key \in Responses : Respond(n, key)
           \/ \E key \in ErrReplies : Refuse(n, key)
+          \/ \E k \in DamageFiles : Damage(n, k)
+          \/ Repair(n)
+          \/ \E key \in LoadErrEmitters : LoadDamaged(n, key)
 
 Spec == Init /\ [][Next]_vars
 
@@ -379,6 +410,7 @@ SecretsOnlyInNamedFiles == \A n \in Nodes, k \in FileKinds : HoldsSecret(fs[n][k
 TypeOK == /\ \A n \in Nodes : /\ node[n].keyed \in BOOLEAN /\ node[n].up \in BOOLEAN
                               /\ node[n].epoch \in 0..MaxEpoch
                               /\ node[n].dkg \in {"idle", "proposed", "executing"}
+                              /\ node[n].dmg \in {"none"} \cup DamageFiles
           /\ last.key \in Inventory \cup {"none"}
 
 View == <<node, fs, io, umask, last.key, last.atoms>>
